@@ -134,7 +134,7 @@ package contractcourt
 //@        ite(t == channeldb.RemoteForceClose, remoteCloseTrigger, chainTrigger))))
 //@
 //@ func (c *ChannelArbitrator) progressStateMachineAfterRestart
-//@   props C13
+//@   props C13 C12
 //@   requires c.cfg.CloseType == channeldb.CooperativeClose || c.cfg.CloseType == channeldb.BreachClose ||
 //@            c.cfg.CloseType == channeldb.LocalForceClose || c.cfg.CloseType == channeldb.RemoteForceClose
 //@   let st0 = old(c.state)
